@@ -586,6 +586,8 @@ def check(ctx):
                     continue
                 if "version" in txt:
                     continue
+                if o[0] == "call" and o[1].name == "next" and outcome == "Some":
+                    continue        # the check written as a loop over the expected files (one missing file returns early)
                 if o[0] == "arg":
                     # the entry points used by the callers must pass this constant
                     pname = o[2]
